@@ -285,7 +285,7 @@ var reInt = regexp.MustCompile(`^[+-]?[0-9]+$`)
 // phylipHeader reads the counts declared by the first non-blank line, independently
 func phylipHeader(data []byte) (n, l int64, ok bool) {
 	for _, line := range strings.FieldsFunc(string(data), func(r rune) bool { return r == '\n' || r == '\r' }) {
-		f := strings.Fields(line)
+		f := strings.FieldsFunc(line, func(r rune) bool { return r == ' ' || r == '\t' })
 		if len(f) == 0 {
 			continue
 		}
@@ -315,13 +315,19 @@ var reDim = regexp.MustCompile(`(?i)(ntax|nchar)\s*=\s*([0-9]+)`)
 // the same restrictions as nexusDims (no comment bracket, known blocks only); ok is false
 // when the text has no such command or more than one
 // nexusPlain tells whether the independent Nexus readers below may judge the text: no comment
-// bracket, no NUL, and no byte that Go's strings.Fields would take for a blank while goalign's
-// lexer takes it for a letter (vertical tab, form feed, other control characters, non-ASCII
-// bytes): there "the declaration" is not the same text for the two readers
+// bracket, no NUL and no other control character (vertical tab, form feed ...: a regular
+// expression or a word splitter may take them for blanks where goalign's lexer takes them for
+// letters, and "the declaration" is then not the same text for the two readers). Words are
+// split on the four ASCII blanks only (asciiFields), so multi-byte characters - among them the
+// Unicode spaces that strings.Fields would split on - stay inside their word, as for the lexer
+func asciiFields(s string) []string {
+	return strings.FieldsFunc(s, func(r rune) bool { return r == ' ' || r == '\t' || r == '\n' || r == '\r' })
+}
+
 func nexusPlain(s string) bool {
 	for i := 0; i < len(s); i++ {
 		c := s[i]
-		if c == '[' || c == ']' || c >= 0x80 || (c < 0x20 && c != '\t' && c != '\n' && c != '\r') {
+		if c == '[' || c == ']' || c == 0x7f || (c < 0x20 && c != '\t' && c != '\n' && c != '\r') {
 			return false
 		}
 	}
@@ -336,7 +342,7 @@ func nexusTaxLabels(data []byte) (labels []string, ok bool) {
 	block := ""
 	n := 0
 	for i, cmd := range strings.Split(s, ";") {
-		cmd = strings.Join(strings.Fields(cmd), " ")
+		cmd = strings.Join(asciiFields(cmd), " ")
 		// the magic word heads the first command only; anywhere else it names an unknown command
 		if i == 0 && len(cmd) >= 6 && strings.EqualFold(cmd[:6], "#NEXUS") {
 			cmd = strings.TrimSpace(cmd[6:])
@@ -361,7 +367,7 @@ func nexusTaxLabels(data []byte) (labels []string, ok bool) {
 		}
 		if block == "taxa" && (low == "taxlabels" || strings.HasPrefix(low, "taxlabels ")) {
 			n++
-			labels = strings.Fields(cmd)[1:]
+			labels = asciiFields(cmd)[1:]
 		} else if strings.Contains(low, "taxlabels") {
 			return nil, false
 		}
@@ -379,7 +385,7 @@ func nexusDims(data []byte) (ntax, nchar int64, okTax, okChar bool) {
 	taxaNtax := int64(-1)
 	dataNtax, dataNchar := int64(-1), int64(-1)
 	for i, cmd := range strings.Split(s, ";") {
-		cmd = strings.Join(strings.Fields(cmd), " ")
+		cmd = strings.Join(asciiFields(cmd), " ")
 		// the magic word is not followed by a semicolon: it heads the first command (and only
 		// that one: anywhere else "#NEXUS ..." is an unknown command, skipped with its arguments)
 		if i == 0 && len(cmd) >= 6 && strings.EqualFold(cmd[:6], "#NEXUS") {
@@ -1036,6 +1042,15 @@ func emitPartition(t *rapid.T, l int) string {
 	default: // several intervals per partition
 		fmt.Fprintf(&sb, "JC,a=1-%d,%d\nK2P,b=%d-%d\n", max1(l/3), max1(l/3)+1, max1(l/3)+2, l)
 	}
+	// a backwards range (it addresses no site) under an existing name, with any stride, starting
+	// inside or just past the declared length
+	if rapid.IntRange(0, 4).Draw(t, "backwards") == 0 {
+		text := strings.TrimRight(sb.String(), "\n")
+		from := rapid.IntRange(1, l+2).Draw(t, "bfrom")
+		to := rapid.IntRange(0, from).Draw(t, "bto")
+		stride := rapid.SampledFrom([]string{"", "/1", "/2", "/3", "/7", "/9223372036854775807"}).Draw(t, "bstride")
+		return fmt.Sprintf("%s,%d-%d%s\n", text, from, to, stride)
+	}
 	return sb.String()
 }
 
@@ -1131,6 +1146,12 @@ func validFile(t *rapid.T, family string, strict bool) (data []byte, declaredLen
 	a := genAli(t)
 	switch family {
 	case "fasta":
+		// names that differ from an earlier one by blanks at the end only (a FASTA header keeps
+		// them: "a" and "a " are two names)
+		if len(a.Rows) > 1 && rapid.IntRange(0, 5).Draw(t, "blankvariant") == 0 {
+			j := rapid.IntRange(1, len(a.Rows)-1).Draw(t, "variantrow")
+			a.Rows[j].Name = a.Rows[rapid.IntRange(0, j-1).Draw(t, "variantof")].Name + rapid.SampledFrom([]string{" ", "  "}).Draw(t, "blanksuffix")
+		}
 		return []byte(emitFasta(a, rapid.SampledFrom([]int{80, 60, 10, 1000}).Draw(t, "width"))), a.Length()
 	case "phylip":
 		s := emitPhylip(a, strict, rapid.Bool().Draw(t, "interleaved"), rapid.SampledFrom([]int{60, 50, 10}).Draw(t, "width"))
@@ -1610,7 +1631,8 @@ func TestCLI(t *testing.T) {
 				if len(row.Seq) != len(rows[0].Seq) {
 					return o, fmt.Errorf("goalign %v: status 0 and a ragged alignment in the output", args)
 				}
-				if seen[row.Name] {
+				// (relaxed Phylip output cuts a name at its first blank: "a" and "a " read alike there)
+				if seen[row.Name] && sub == "fasta" {
 					return o, fmt.Errorf("goalign %v: status 0 and two sequences named %q", args, row.Name)
 				}
 				seen[row.Name] = true
